@@ -1,0 +1,114 @@
+//! Verification hook, compiled only with `--cfg purl_verif` (never by a cargo feature).
+//!
+//! `Checksum` keeps its entries in a `HashMap`, whose iteration order is the one piece of
+//! nondeterminism in this crate. With the guard on, `Checksum` uses the map below instead: the
+//! same `std::collections::HashMap`, but with a hasher whose output can be scripted per key, so
+//! that a harness can drive the map through every iteration order deliberately.
+
+use std::cell::RefCell;
+use std::fmt;
+use std::hash::{BuildHasher, Hasher};
+use std::ops::{Deref, DerefMut};
+
+thread_local! {
+    static SCRIPT: RefCell<Vec<(Vec<u8>, u64)>> = const { RefCell::new(Vec::new()) };
+}
+
+/// Set the hash of each listed key (given as the bytes of the string) for maps used on this
+/// thread. Keys that are not listed hash with FNV-1a.
+pub fn set_script(script: Vec<(Vec<u8>, u64)>) {
+    SCRIPT.with(|s| *s.borrow_mut() = script);
+}
+
+/// A `BuildHasher` producing [`ScriptedHasher`]s.
+#[derive(Clone, Copy, Debug, Default)]
+pub struct ScriptedState;
+
+/// A hasher that buffers the bytes written and looks the result up in the thread's script.
+#[derive(Clone, Debug, Default)]
+pub struct ScriptedHasher {
+    bytes: Vec<u8>,
+}
+
+impl Hasher for ScriptedHasher {
+    fn write(&mut self, bytes: &[u8]) {
+        self.bytes.extend_from_slice(bytes);
+    }
+
+    fn finish(&self) -> u64 {
+        // `str` hashes as its bytes followed by 0xff.
+        let key = match self.bytes.split_last() {
+            Some((0xff, rest)) => rest,
+            _ => &self.bytes[..],
+        };
+        let scripted =
+            SCRIPT.with(|s| s.borrow().iter().find(|(k, _)| k.as_slice() == key).map(|(_, h)| *h));
+        scripted.unwrap_or_else(|| {
+            let mut h = 0xcbf2_9ce4_8422_2325u64;
+            for b in key {
+                h ^= u64::from(*b);
+                h = h.wrapping_mul(0x0000_0100_0000_01b3);
+            }
+            h
+        })
+    }
+}
+
+impl BuildHasher for ScriptedState {
+    type Hasher = ScriptedHasher;
+
+    fn build_hasher(&self) -> ScriptedHasher {
+        ScriptedHasher::default()
+    }
+}
+
+/// `std::collections::HashMap` with the scripted hasher.
+pub struct HashMap<K, V>(std::collections::HashMap<K, V, ScriptedState>);
+
+impl<K, V> HashMap<K, V> {
+    /// See [`std::collections::HashMap::with_capacity`].
+    pub fn with_capacity(capacity: usize) -> Self {
+        HashMap(std::collections::HashMap::with_capacity_and_hasher(capacity, ScriptedState))
+    }
+}
+
+impl<K, V> Default for HashMap<K, V> {
+    fn default() -> Self {
+        HashMap(std::collections::HashMap::with_hasher(ScriptedState))
+    }
+}
+
+impl<K: Clone, V: Clone> Clone for HashMap<K, V> {
+    fn clone(&self) -> Self {
+        HashMap(self.0.clone())
+    }
+}
+
+impl<K: fmt::Debug, V: fmt::Debug> fmt::Debug for HashMap<K, V> {
+    fn fmt(&self, f: &mut fmt::Formatter<'_>) -> fmt::Result {
+        self.0.fmt(f)
+    }
+}
+
+impl<K, V> Deref for HashMap<K, V> {
+    type Target = std::collections::HashMap<K, V, ScriptedState>;
+
+    fn deref(&self) -> &Self::Target {
+        &self.0
+    }
+}
+
+impl<K, V> DerefMut for HashMap<K, V> {
+    fn deref_mut(&mut self) -> &mut Self::Target {
+        &mut self.0
+    }
+}
+
+impl<K, V> IntoIterator for HashMap<K, V> {
+    type IntoIter = std::collections::hash_map::IntoIter<K, V>;
+    type Item = (K, V);
+
+    fn into_iter(self) -> Self::IntoIter {
+        self.0.into_iter()
+    }
+}
